@@ -248,6 +248,28 @@ func (h *H) keySample() map[string][]vaxis.Key {
 			add("special-key-kitty-mods", vaxis.Key{Keycode: kc, Modifiers: vaxis.ModifierMask(m)})
 		}
 	}
+	// keypad keys (F413): every keypad key code x 8 xterm modifier sets x Num Lock / Caps Lock off / on, bare and
+	// with the legend's character as text (what a host with the kitty "associated text" flag delivers), repeats
+	kpText := map[rune]string{vaxis.KeyKeyPadDecimal: ".", vaxis.KeyKeyPadDivide: "/", vaxis.KeyKeyPadMultiply: "*",
+		vaxis.KeyKeyPadSubtract: "-", vaxis.KeyKeyPadAdd: "+", vaxis.KeyKeyPadEqual: "=", vaxis.KeyKeyPadSeparator: ","}
+	for i := rune(0); i < 10; i++ {
+		kpText[vaxis.KeyKeyPad0+i] = string('0' + i)
+	}
+	for kc := vaxis.KeyKeyPad0; kc <= vaxis.KeyKeyPadBegin; kc++ {
+		for m := 0; m < 8; m++ {
+			for _, lock := range []vaxis.ModifierMask{0, vaxis.ModNumLock, vaxis.ModCapsLock, vaxis.ModNumLock | vaxis.ModCapsLock} {
+				add("keypad-keys", vaxis.Key{Keycode: kc, Modifiers: vaxis.ModifierMask(m) | lock})
+				if t := kpText[kc]; t != "" {
+					add("keypad-keys-with-text", vaxis.Key{Keycode: kc, Modifiers: vaxis.ModifierMask(m) | lock, Text: t})
+				}
+			}
+			add("keypad-keys-repeat", vaxis.Key{Keycode: kc, Modifiers: vaxis.ModifierMask(m), EventType: vaxis.EventRepeat})
+		}
+	}
+	for _, in := range []string{"\x1b[57399u", "\x1b[57404u", "\x1b[57404;129;53u", "\x1b[57414u", "\x1b[57414;5u", "\x1b[57417u", "\x1b[57417;2u",
+		"\x1b[57427~", "\x1b[E", "\x1b[1;5E", "\x1b[57425u", "\x1b[57426;3u", "\x1b[57409;129;46u", "\x1b[57413;130u", "\x1b[57415u", "\x1b[57416u", "\x1b[57423;129u"} {
+		fromBytes("decoded-keypad-reports", in)
+	}
 	// function keys as decoded from their legacy and kitty reports
 	for _, in := range []string{"\x1bOA", "\x1b[A", "\x1bOH", "\x1b[F", "\x1bOP", "\x1b[1;5A", "\x1b[3;2~", "\x1b[15;3~", "\x1b[Z", "\t", "\r", "\x1b", "\x7f", "\x1b\x7f", "\x08", " "} {
 		fromBytes("decoded-legacy-function-keys", in)
